@@ -23,9 +23,9 @@ A = {"Reset", "Gen", "FillBegin", "FillEnd", "WriteBegin", "WriteEnd", "ErrSeen"
 B = {"Reset", "LastProbe", "DoneSeen", "Inject", "Line", "CtxCancelled", "Cancel", "Returned", "Hang", "Garbled", "Crash"}
 
 
-def pkt_traces(ctx, delay_runs, cancel_runs, procs, label):
+def pkt_traces(ctx, delay_runs, cancel_runs, procs, label, real_runs=0):
     binary = ctx.go_build_test("./command")
-    envs = [{"VF_OUT": os.path.join(ctx.scratch, "%s-%d.ndjson" % (label, k)), "VF_DELAY_RUNS": delay_runs, "VF_CANCEL_RUNS": cancel_runs,
+    envs = [{"VF_OUT": os.path.join(ctx.scratch, "%s-%d.ndjson" % (label, k)), "VF_DELAY_RUNS": delay_runs, "VF_CANCEL_RUNS": cancel_runs, "VF_REAL_RUNS": real_runs,
              "VERIF_SEED": ctx.seed * 1000 + k} for k in range(procs)]
     res = vf.go_run_many(ctx, binary, "^TestVfPktRunner$", envs, timeout=2400)
     events = []
